@@ -210,15 +210,23 @@ func SpecIn(k uint64) uint8 { panic("abstract spec function") }
 // how runs are encoded; a block move of the referenced range is not the same thing. ----
 //   dist  distance of the back reference being expanded (ghost: read when its copy loop starts)
 
+//   tokO / tokI / tokCtrl  where the token being expanded starts in the output / in the input, and its control byte
+//@ pred lzfDist(in, c, k): ((c & 0x1f) << 8) + int(in[ite(c >> 5 == 7, k + 2, k + 1)]) + 1
 //@ func body:lzfDecompress
 //@   arith int
 //@   properties C03
-//@   ghost var dist mathint = 0
-//@   set dist = ite(x#2 == 0, o - ref, dist) after store x#2
+//@   ghost var tokO int = 0
+//@   ghost var tokI int = 0
+//@   ghost var tokCtrl int = 0
+//@   set tokO = o after store ctrl
+//@   set tokI = i after store ctrl
+//@   set tokCtrl = ctrl after store ctrl
 //@   ensures announced_length: err == nil ==> len(out) == outlen
 //@   loop 1:
-//@     invariant cursors: 0 <= i && 0 <= o && o <= len(out) && len(out) == outlen && fresh(out)
+//@     invariant cursors: 0 <= i && 0 <= o && o <= len(out) && len(out) == outlen && fresh(out) && 0 <= tokO && tokO <= o && 0 <= tokI
+//@     invariant the_last_literal_run_is_the_input_bytes: tokCtrl < 32 ==> (forall j int :: tokO <= j && j < o ==> out[j] == in[j + (i - o)])
+//@     invariant the_last_back_reference_repeats_the_output_at_its_distance: tokCtrl >= 32 && tokO < o ==> (forall j int :: tokO <= j && j < o ==> out[j] == out[j - lzfDist(in, tokCtrl, tokI)])
 //@   loop 2:
-//@     invariant a_literal_run_is_the_input_bytes: 0 <= x#1 && x#1 <= o && 0 <= i && o <= len(out) && len(out) == outlen && fresh(out) && (forall j int :: o - x#1 <= j && j < o ==> out[j] == in[j + (i - o)])
+//@     invariant a_literal_run_is_the_input_bytes: 0 <= x#1 && x#1 <= o && 0 <= i && o <= len(out) && len(out) == outlen && fresh(out) && o - x#1 == tokO && tokCtrl < 32 && 0 <= tokI && (forall j int :: o - x#1 <= j && j < o ==> out[j] == in[j + (i - o)])
 //@   loop 3:
-//@     invariant a_back_reference_repeats_the_output_byte_by_byte: 0 <= x#2 && x#2 <= o && 0 <= i && o <= len(out) && len(out) == outlen && fresh(out) && o - ref == dist && (forall j int :: o - x#2 <= j && j < o ==> out[j] == out[j - dist])
+//@     invariant a_back_reference_repeats_the_output_byte_by_byte: 0 <= x#2 && x#2 <= o && 0 <= i && o <= len(out) && len(out) == outlen && fresh(out) && o - x#2 == tokO && tokCtrl >= 32 && 0 <= tokI && o - ref == lzfDist(in, tokCtrl, tokI) && (forall j int :: o - x#2 <= j && j < o ==> out[j] == out[j - lzfDist(in, tokCtrl, tokI)])
